@@ -622,6 +622,10 @@ def run(ctx):
            "samples": [{"kind": i[0], "n": i[1], "mode": i[3]}
                        for i in (items[0], items[3], items[-1])],
            "exhaustive": True}
+    # one large input (30000 events) through this property's entry points
+    from .. import big
+    viols = list(viols) + big.violations("C02", ctx.scratch)
+    cov["big_input_events"] = big.N
     return {"level": LEVEL, "coverage": cov, "violations": viols,
             "assumptions": ["tsv compared to 1e-10 relative",
                             "N <= 23; 10-event export chunks via "
@@ -629,6 +633,9 @@ def run(ctx):
 
 
 def replay(case, ctx):
+    if case.get("kind") == "big":
+        from .. import big
+        return big.violations("C02", ctx.scratch)
     if case.get("mode") == "bigtsv":
         return [v for v in bigtsv_violations(ctx.scratch)
                 if v["case"] == case]
